@@ -175,6 +175,13 @@ class Server:
         if self.http is not None:
             self.http.close()
         if self.proc is not None:
+            if os.environ.get("VERIF_GRACEFUL") and self.proc.poll() is None:
+                # coverage runs (tools/coverage.sh): SIGTERM lets the service shut down and write its profile
+                try:
+                    self.proc.terminate()
+                    self.proc.wait(timeout=10)
+                except Exception:
+                    pass
             try:
                 self.proc.kill()
                 self.proc.wait(timeout=5)
